@@ -2,7 +2,10 @@
 //!
 //! case  := <flags> <document>            document = decimal code points joined by ',' ("-" = empty)
 //!          flags: `d` default; `x` = expand entity references even when the reference graph
-//!          is cyclic (only used in isolated mode: the real code overflows its stack, D09)
+//!          is cyclic (only used in isolated mode: the real code overflows its stack, D09);
+//!          `n` = no pretty-printing (the line ends after `re=`; used for very deep documents,
+//!          whose indented form is quadratic in the depth); `p` is read by the model only
+//!          (behave like the pinned code: no repairs)
 //! line  := "rest=-" " err:parse"                                    xml_parser::document failed
 //!        | "rest=" N " err:" CLASS                                   XmlDocument::new failed
 //!        | "rest=" N " " DOC "|ser=" STR "|re=" RE "|pretty=" STR "|pp=" RE
@@ -318,6 +321,9 @@ pub fn case(line: &str) -> String {
     };
     let ser = dom.to_string();
     out.push_str(&format!("|ser={}|re={}", enc(&ser), reparse(&dom, &ser, true)));
+    if flags.contains('n') {
+        return out;
+    }
     let mut buf: Vec<u8> = vec![];
     match dom.pretty(&mut buf) {
         Ok(()) => {
